@@ -461,6 +461,20 @@ def rule_depth(ctx, rep: Report, rid="S2"):
                 isinstance(c, ast.Call) and isinstance(c.func, ast.Attribute) and c.func.attr in ("pop", "popleft") for c in ast.walk(w))]
             if wl and any(".instantiations" in unparse(w) for w in wl):
                 rec.append(f.name + " (worklist)")
+    # no return path may bypass the recursive rewrite (a shallow "nothing to do" gate in front of it
+    # returns types whose parameter sits deeper than the gate looks)
+    first_call = None
+    for st in fn.body:
+        if any(isinstance(c, ast.Call) and isinstance(c.func, ast.Name) and c.func.id in [r.split(" ")[0] for r in rec]
+               for c in ast.walk(st)) and not isinstance(st, ast.FunctionDef):
+            first_call = st
+            break
+    early = [r for r in walk_no_nested(fn) if isinstance(r, ast.Return) and first_call is not None and r.lineno < first_call.lineno]
+    if rec:
+        rep.add(rid, "instantiate_type:no return bypasses the recursive rewrite of template arguments", not early and first_call is not None,
+                f"return at line(s) {[r.lineno for r in early]} precedes the call of the recursive rewrite: a test that looks "
+                f"only at the type's own name / first-level arguments decides 'nothing to substitute' for "
+                f"std::vector<std::pair<T,int>>", f"{TI}/helpers.py:{(early[0].lineno if early else fn.lineno)}")
     rep.add(rid, "instantiate_type:template arguments are rewritten at every nesting depth", bool(rec),
             "the rewrite of template arguments iterates over the first level of `typename.instantiations` only "
             "(no recursion, no worklist): a parameter nested deeper, e.g. std::vector<std::vector<T>>, is never "
